@@ -193,6 +193,8 @@ struct ThreadPlan {
     gate: bool,
     /// how a panicking closure panics (see `do_panic`)
     pk: u8,
+    /// what the closure does before it finishes (see `work`)
+    wk: u8,
 }
 
 pub const NPANIC: u8 = 11;
@@ -286,6 +288,88 @@ fn do_panic(kind: u8, k: u32) -> ! {
     panic!("probe closure panics on purpose");
 }
 
+pub const NWORK: u8 = 5;
+
+#[inline(never)]
+fn recurse(depth: u32, k: u32) -> u64 {
+    // about 1 KiB of live frame per level
+    let mut pad = [0u8; 1024];
+    let b = core::hint::black_box(&mut pad);
+    b[(depth as usize * 7) % 1024] = depth as u8;
+    b[1023] = k as u8;
+    let below = if depth == 0 { 0 } else { recurse(depth - 1, k) };
+    below.wrapping_add(b[(depth as usize * 7) % 1024] as u64).wrapping_add(b[1023] as u64)
+}
+
+/// What real programs do on a thread before it finishes.  Returns k if everything the closure
+/// computed on its own stack and heap is what it wrote there - the closure's result is derived
+/// from it, so a thread whose private memory was tampered with returns a wrong value.
+#[inline(never)]
+fn work(kind: u8, k: u32) -> u32 {
+    match kind {
+        1 => {
+            // fork + wait (what process::Command::spawn does): the child scribbles over its COPY of
+            // the closure's locals and a good part of the stack below them, then leaves
+            let mut loc = [tag(k); 64];
+            let p = core::hint::black_box(loc.as_mut_ptr());
+            let pid = unsafe { sc::syscall!(FORK) as isize };
+            if pid == 0 {
+                unsafe {
+                    for i in 0..64 {
+                        p.add(i).write_volatile(0xDEAD_0000 + i as u64);
+                    }
+                    let mut junk = [0x55u8; 8192];
+                    core::hint::black_box(&mut junk);
+                    sc::syscall!(EXIT_GROUP, 0);
+                }
+            }
+            if pid > 0 {
+                unsafe {
+                    sc::syscall!(WAIT4, pid, 0, 0, 0);
+                }
+            }
+            let mut ok = pid > 0;
+            for i in 0..64 {
+                ok &= unsafe { p.add(i).read_volatile() } == tag(k);
+            }
+            if ok { k } else { !k }
+        }
+        2 => {
+            // a spawned thread spawns and joins a thread of its own
+            let inner = tiny_std::thread::spawn(move || tag(k).rotate_left(7));
+            match inner {
+                Ok(h) => match h.join() {
+                    Some(v) if v == tag(k).rotate_left(7) => k,
+                    _ => !k,
+                },
+                Err(_) => !k,
+            }
+        }
+        3 => {
+            // large stack use: 512 levels of ~1 KiB frames
+            let want = (0..=511u32).fold(0u64, |a, d| a.wrapping_add(d as u8 as u64).wrapping_add(k as u8 as u64));
+            if recurse(511, k) == want { k } else { !k }
+        }
+        4 => {
+            // allocation heavy
+            let mut v: Vec<Vec<u8>> = Vec::new();
+            for i in 0..120u32 {
+                let n = 1 + ((k.wrapping_mul(31).wrapping_add(i * 97)) % 3000) as usize;
+                let mut b = Vec::with_capacity(n);
+                b.resize(n, (k as u8) ^ (i as u8));
+                v.push(b);
+                if i % 3 == 2 {
+                    let j = (i as usize * 5) % v.len();
+                    v.swap_remove(j);
+                }
+            }
+            let ok = v.iter().all(|b| b.iter().all(|x| *x == b[0]));
+            if ok { k } else { !k }
+        }
+        _ => k,
+    }
+}
+
 fn body<T: Tagged>(p: ThreadPlan) -> T {
     if QUIET.load(Ordering::Relaxed) {
         let k = p.k as usize % MAXK;
@@ -324,13 +408,16 @@ fn body<T: Tagged>(p: ThreadPlan) -> T {
         EFFECT.get()[k as usize % MAXK] = tag(k);
     }
     if p.panic {
+        if p.wk != 0 {
+            core::hint::black_box(work(p.wk, k));
+        }
         CEND[k as usize % MAXK].store(true, Ordering::SeqCst);
         Ev::new("cpanic").u("k", k as u64).u("pk", p.pk as u64).emit();
         do_panic(p.pk, k);
     }
-    let v = T::make(k);
+    let v = T::make(if p.wk == 0 { k } else { work(p.wk, k) });
     CEND[k as usize % MAXK].store(true, Ordering::SeqCst);
-    Ev::new("cend").u("k", k as u64).emit();
+    Ev::new("cend").u("k", k as u64).u("wk", p.wk as u64).emit();
     v
 }
 
@@ -411,7 +498,7 @@ fn h_race(n: u32, seed: u64, spin: u32, drop_pct: u32) {
     for i in 0..n {
         let k = NEXT_K.fetch_add(1, Ordering::SeqCst);
         STARTED[k as usize % MAXK].store(false, Ordering::SeqCst);
-        let plan = ThreadPlan { k, party: 0, panic: false, pre: 0, gate: false, pk: 0 };
+        let plan = ThreadPlan { k, party: 0, panic: false, pre: 0, gate: false, pk: 0, wk: 0 };
         let join = rng.below(100) >= drop_pct;
         let wait = spin_wait_started;
         macro_rules! go {
@@ -498,7 +585,7 @@ enum HOp {
 enum Cmd {
     None,
     Batch { n: u32, seed: u64, conc: u32, panic_pct: u32, drop_pct: u32, types: u32 },
-    One { ty: u32, panic: bool, op: u8, pre: u32, hdelay: u32, gate: bool, pk: u8 },
+    One { ty: u32, panic: bool, op: u8, pre: u32, hdelay: u32, gate: bool, pk: u8, wk: u8 },
     Prog { ops: [HOp; 8], n: usize },
     Race { n: u32, seed: u64, spin: u32, drop_pct: u32 },
 }
@@ -560,7 +647,8 @@ fn h_batch(n: u32, seed: u64, conc: u32, panic_pct: u32, drop_pct: u32, types: u
         };
         // kinds that hold a process-wide print lock are left to their own runs
         let pk = [0u8, 3, 4, 5, 6, 7, 8, 9][rng.below(8) as usize];
-        let plan = ThreadPlan { k, party: 0, panic: rng.below(100) < panic_pct, pre, gate: false, pk };
+        let wk = [0u8, 0, 0, 0, 3, 4, 1, 2][rng.below(8) as usize];
+        let plan = ThreadPlan { k, party: 0, panic: rng.below(100) < panic_pct, pre, gate: false, pk, wk };
         let Some(h) = spawn_any(ty, plan) else { continue };
         if used == conc {
             // evict a random victim first
@@ -582,10 +670,10 @@ fn h_batch(n: u32, seed: u64, conc: u32, panic_pct: u32, drop_pct: u32, types: u
     }
 }
 
-fn h_one(ty: u32, panic: bool, op: u8, pre: u32, hdelay: u32, gate: bool, pk: u8) {
+fn h_one(ty: u32, panic: bool, op: u8, pre: u32, hdelay: u32, gate: bool, pk: u8, wk: u8) {
     let k = NEXT_K.fetch_add(1, Ordering::SeqCst);
     CUR_K.store(k, Ordering::SeqCst);
-    let plan = ThreadPlan { k, party: 0, panic, pre, gate, pk };
+    let plan = ThreadPlan { k, party: 0, panic, pre, gate, pk, wk };
     let Some(h) = spawn_any(ty, plan) else { return };
     if hdelay > 0 {
         sys::sleep_us(hdelay as u64);
@@ -615,7 +703,7 @@ fn h_prog(ops: &[HOp]) {
             HOp::Spawn { party, ty, panic } => {
                 // panic kinds 0, 3..9 in turn (the kinds that hold a process-wide print lock have their own runs)
                 let r = ((base + party as u32) % 8) as u8;
-                let plan = ThreadPlan { k: base + party as u32, party, panic, pre: 0, gate: false, pk: if r == 0 { 0 } else { r + 2 } };
+                let plan = ThreadPlan { k: base + party as u32, party, panic, pre: 0, gate: false, pk: if r == 0 { 0 } else { r + 2 }, wk: 0 };
                 handles[party as usize] = spawn_any(ty, plan);
             }
             HOp::Join { party } => {
@@ -650,7 +738,7 @@ fn h_main() {
         match cmd {
             Cmd::None => {}
             Cmd::Batch { n, seed, conc, panic_pct, drop_pct, types } => h_batch(n, seed, conc, panic_pct, drop_pct, types),
-            Cmd::One { ty, panic, op, pre, hdelay, gate, pk } => h_one(ty, panic, op, pre, hdelay, gate, pk),
+            Cmd::One { ty, panic, op, pre, hdelay, gate, pk, wk } => h_one(ty, panic, op, pre, hdelay, gate, pk, wk),
             Cmd::Prog { ops, n } => h_prog(&ops[..n]),
             Cmd::Race { n, seed, spin, drop_pct } => h_race(n, seed, spin, drop_pct),
         }
@@ -794,7 +882,7 @@ fn cmd_one(line: &str) {
         GATE.store(0, Ordering::SeqCst);
     }
     sched::WAIT_ADDR.store(0, Ordering::SeqCst);
-    let s = send(Cmd::One { ty, panic, op, pre: num(line, "pre", 0) as u32, hdelay: num(line, "hdelay", 0) as u32, gate, pk: num(line, "pk", 0) as u8 });
+    let s = send(Cmd::One { ty, panic, op, pre: num(line, "pre", 0) as u32, hdelay: num(line, "hdelay", 0) as u32, gate, pk: num(line, "pk", 0) as u8, wk: num(line, "wk", 0) as u8 });
     if wake {
         let woken = sched::stray_wake(1_500_000);
         if woken > 0 {
